@@ -653,7 +653,19 @@ class Interp:
                         results.append((NORMAL, s))
                     return results + raised
         sts, raised = self._simple([stmt.value], st, fr)
+        accumulates = len(stmt.targets) == 1 and isinstance(stmt.targets[0], ast.Name) and \
+            isinstance(stmt.value, ast.BinOp) and isinstance(stmt.value.left, ast.Name) and \
+            stmt.value.left.id == stmt.targets[0].id and \
+            isinstance(stmt.value.op, (ast.Add, ast.Sub, ast.Mult)) and not any(
+                isinstance(n, ast.Name) and n.id == stmt.targets[0].id
+                for n in ast.walk(stmt.value.right))
         for s in sts:
+            if accumulates:
+                # `x = x + e` on a local: recorded as the update `x += e` it is (of the
+                # value; rules do not follow aliases of local numbers)
+                self._store(stmt.targets[0], stmt.value.right, s, fr, stmt,
+                            aug=stmt.value.op)
+                continue
             for target in stmt.targets:
                 self._store(target, stmt.value, s, fr, stmt)
         sub_exprs = []
